@@ -9,6 +9,7 @@ import (
 	"sort"
 	"strings"
 	"time"
+	"verif/engine/vrt"
 
 	"github.com/prometheus/client_golang/prometheus"
 	"github.com/prometheus/prometheus/model/labels"
@@ -80,10 +81,12 @@ type Shard struct {
 
 // Replica is the script of one replica (StatefulSet) for one cycle.
 type Replica struct {
-	Absent     bool    `json:"absent,omitempty"`
-	ShardsErr  bool    `json:"shardsErr,omitempty"`
-	ScaleErrAt []int   `json:"scaleErrAt,omitempty"` // indices of ChangeScale calls that fail
-	Shards     []Shard `json:"shards"`
+	Absent     bool  `json:"absent,omitempty"`
+	ShardsErr  bool  `json:"shardsErr,omitempty"`
+	ScaleErrAt []int `json:"scaleErrAt,omitempty"` // indices of ChangeScale calls that fail
+	// SlowSec: listing the shards of this replica takes this long (the clock the coordinator reads moves on)
+	SlowSec int     `json:"slowSec,omitempty"`
+	Shards  []Shard `json:"shards"`
 }
 
 // Scenario is the complete input of an execution.
@@ -165,6 +168,9 @@ func (f *fakeMgr) Shards() ([]*shard.Shard, error) {
 		return nil, fmt.Errorf("scripted: list shards failed")
 	}
 	f.obs.Listed = true
+	if f.rep.SlowSec > 0 {
+		vrt.SetClock(vrt.Now().Add(time.Duration(f.rep.SlowSec) * time.Second))
+	}
 	return f.shards, nil
 }
 
@@ -393,6 +399,8 @@ func (e *Env) Cycle(reps []Replica) CycleObs {
 
 // Run executes all cycles of a scenario.
 func Run(sc *Scenario) *Obs {
+	vrt.ClockOff()
+	defer vrt.ClockOff()
 	e := NewEnv(sc)
 	o := &Obs{}
 	for _, reps := range sc.Cycles {
